@@ -5,6 +5,7 @@ import (
 	"errors"
 	"fmt"
 	"math/rand"
+	"runtime/debug"
 	"sort"
 	"strings"
 
@@ -393,13 +394,19 @@ func stRead(w *TraceWriter, schema string, in []byte, seeds []int, note string) 
 	}
 	v := fresh(schema)
 	ok, n, panicked := false, 0, false
+	gin := guardCopy(in)
+	if gin == nil {
+		gin = in
+	}
 	func() {
+		old := debug.SetPanicOnFault(true)
+		defer debug.SetPanicOnFault(old)
 		defer func() {
 			if p := recover(); p != nil {
 				panicked = true
 			}
 		}()
-		k, err := v.FastRead(in)
+		k, err := v.FastRead(gin)
 		ok, n = err == nil, k
 	}()
 	val := Raw("{}")
